@@ -189,7 +189,7 @@ def mgStaged (args impl : List String) : Option (String × String) := do
 /-- `mg.ramp <startRate> <endRate> <unitNs> <durationNs> <queries>` — the generated rate function of `CalculateRampRate`
 (its validation and the rate parsing in front of it are not part of the program: a refused ramp is skipped) -/
 def mgRamp (args impl : List String) : Option (String × String) := do
-  match args with
+  match args.take 5 with      -- (a sixth argument only tells the harness where on the time line the queries start)
   | [s, e, _unit, dur, qs] =>
     let s ← s.toInt?; let e ← e.toInt?; let dur ← dur.toInt?
     let qs ← parseInts qs
